@@ -1,5 +1,6 @@
 //! vkit: the oracle library of the runtime monitors. It must not depend on
 //! cardano-serialization-lib or cbor_event.
 pub mod cbor;
+pub mod cddl;
 pub mod codec;
 pub mod rng;
